@@ -275,8 +275,10 @@ class Function:
             if scope is None:
                 continue
             inside = None
+            if self.nodes[scope]["k"] == "CXXForRangeStmt":
+                continue        # the loop variable and the hidden __range / __begin / __end: the loop's own machinery
             for d in nd.get("decls", []):
-                if "init" not in d or "d" not in d or d.get("static"):
+                if "init" not in d or "d" not in d or d.get("static") or (d.get("n") or "").startswith("__"):
                     continue
                 v = ("var", d["n"], d["d"])
                 t = self.term(d["init"])
